@@ -84,6 +84,8 @@ func (m *baseMocker) applyByName(funcName string, callback interface{}) {
 	m.guard = newPatchMockGuard(guard)
 	m.guard.Apply()
 	m.imp = callback
+	// 重新应用之后 mocker 不再处于取消状态
+	m.canceled = false
 }
 
 // applyByFunc 根据函数应用 mock
@@ -96,6 +98,8 @@ func (m *baseMocker) applyByFunc(funcDef interface{}, callback interface{}) {
 	m.guard = newPatchMockGuard(guard)
 	m.guard.Apply()
 	m.imp = callback
+	// 重新应用之后 mocker 不再处于取消状态
+	m.canceled = false
 	m.funcDef = funcDef
 }
 
@@ -109,6 +113,8 @@ func (m *baseMocker) applyByMethod(structDef interface{}, method string, callbac
 	m.guard = newPatchMockGuard(guard)
 	m.guard.Apply()
 	m.imp = callback
+	// 重新应用之后 mocker 不再处于取消状态
+	m.canceled = false
 	m.funcDef = reflect.ValueOf(structDef).MethodByName(method).Interface()
 }
 
@@ -237,6 +243,8 @@ func (m *MethodMocker) ExportMethod(name string) UnExportedMocker {
 // mock 回调函数, 需要和 mock 模板函数的签名保持一致
 // 方法的参数签名写法比如: func(s *Struct, arg1, arg2 type), 其中第一个参数必须是接收体类型
 func (m *MethodMocker) Apply(callback interface{}) {
+	// Apply 会覆盖之前设定的 When 条件和 Return
+	m.when = nil
 	m.doApply(callback)
 }
 
@@ -491,6 +499,8 @@ func NewDefMocker(pkgName string, funcDef interface{}) *DefMocker {
 
 // Apply 代理方法实现
 func (m *DefMocker) Apply(callback interface{}) {
+	// Apply 会覆盖之前设定的 When 条件和 Return
+	m.when = nil
 	m.doApply(callback)
 }
 
